@@ -54,6 +54,11 @@ def step (s : St) (line : String) : St × Option String :=
       | some "memstore-delok" => Kind.contract true
       | _ => Kind.unknown
     ({ kind := kind, memNoLock := LocalFS.triggerMemMapFsExcl ((kvGet kv "store").getD "") ((kvGet kv "kind").getD "") ((kvGet kv "lock").getD "") }, none)
+  | "putw" :: rest =>
+    -- judge: a `Put` during which one write of the record failed after a partial delivery reported
+    -- the failure, or the record reads back as exactly the bytes handed over
+    let got := (kvGet (kvs rest) "got").getD ""
+    (s, some (if got == "ok-exact" || got == "err" then "sound" else "UNSOUND"))
   | "put" :: rest =>
     let kv := kvs rest
     match bytesOfHex ((kvGet kv "v").getD "") with
